@@ -255,7 +255,13 @@ func pgSchema(s *proj.Schema) (*pgmini.Schema, error) {
 			col := pgmini.Column{Name: strings.ToLower(c.Name), Type: ty, NotNull: c.NotNull || c.Primary, Primary: c.Primary, ArrLen: -1}
 			switch c.Check.K {
 			case "in":
-				col.In = c.Check.Vals
+				for _, v := range c.Check.Vals {
+					// pgmini compares values in its own canonical form: the SQL literal with the doubled quotes undone
+					if len(v) >= 2 && strings.HasPrefix(v, "'") {
+						v = "'" + strings.ReplaceAll(v[1:len(v)-1], "''", "'") + "'"
+					}
+					col.In = append(col.In, v)
+				}
 			case "arraylen":
 				col.ArrLen = c.Check.N
 			}
